@@ -140,6 +140,11 @@ pub fn boundary_pool(full: bool) -> Vec<Value> {
     p.push(map(&[]));
     p.push(map(&[("a", Value::Int(1))]));
     p.push(map(&[("a", Value::None), ("b", Value::Int(2))]));
+    // large values: anything that abridges, truncates or pages an operand or an error payload shows only on these
+    p.push(Value::String("x".repeat(300)));
+    p.push(Value::String(format!("a{}", "é日😀".repeat(60))));
+    p.push(Value::Vec((0..40).map(Value::Int).collect()));
+    p.push(Value::Map((0..40).map(|i| (format!("k{:02}", i), Value::Int(i))).collect()));
     if full {
         p.push(Value::Vec(vec![Value::Vec(vec![Value::Int(1)]), map(&[("a", Value::Int(1))])]));
         p.push(Value::Vec(vec![Value::Float(0.0)]));
